@@ -180,7 +180,8 @@ def check(pid, tier):
         "design_runs": notes,
         "trace_runs": [{"label": v["label"], "h": v["h"], "args": " ".join(v["args"]), "events": v["len"],
                         "counts": v["counts"], "drift": v["drift"], "wall_s": v["wall_s"]} for v in verdicts],
-        "samples": sample_events(verdicts[0]["trace"]),
+        "behaviours_replayed_into_impl": sum(v.get("behaviours", 0) for v in verdicts),
+        "samples": sample_events(verdicts[0]["trace"]) + [{"tlc_generated_behaviour": v["sample_behaviour"]} for v in verdicts if "sample_behaviour" in v][:1],
         "exhaustive": False,
         "explanation": "design: TLC exhaustive on XmssKey.tla for the listed configs; conformance: every event of every listed trace explained by XmssKeyOps applied to the previous logged state (TraceXmssKey.tla)",
     }
@@ -196,5 +197,43 @@ def check(pid, tier):
         return 1
     return 0
 
+SIM = {  # (h, hf list, seam, behaviours kept)
+    "quick":    [(4, "0,1,2", False, 40), (6, "1", True, 60), (8, "2", True, 30)],
+    "thorough": [(4, "0,1,2", False, 300), (6, "0,1,2", False, 60), (6, "1", True, 600), (8, "2", True, 200)],
+}
+
+def generate_behaviours(h, keep, tag):
+    """TLC -simulate on SimWallet: returns a list of behaviours (lists of ops)."""
+    import random
+    r = tlc("SimWallet", "SimWallet_H%d" % h, workers=1, simulate="num=%d" % max(4, keep // 8), depth=5 * h + 5,
+            seed_=seed() * 101 + h, timeout=900)
+    behs = []
+    seen = set()
+    for line in r.out.splitlines():
+        if line.startswith('<<"BEHAVIOUR", "'):
+            js = line[len('<<"BEHAVIOUR", "'):line.rindex('">>')].replace('\\"', '"')
+            if js not in seen:
+                seen.add(js)
+                behs.append(json.loads(js))
+    if not behs:
+        raise Infra("TLC simulation produced no behaviours for H=%d\n%s" % (h, r.out[-2000:]))
+    random.Random(seed() * 7 + h).shuffle(behs)
+    return behs[:keep], r
+
 def replay_behaviours(pid, tier):
-    return []
+    out = []
+    from concurrent.futures import ThreadPoolExecutor
+    def one(spec):
+        h, hfs, seam, keep = spec
+        behs, r = generate_behaviours(h, keep, pid)
+        plan = os.path.join(scratch(), "plan-h%d-%s.json" % (h, "seam" if seam else "real"))
+        json.dump(behs, open(plan, "w"))
+        args = ["-hf", hfs, "-modes", "plan", "-plan", plan] + (["-seam"] if seam else [])
+        v = drive_and_validate("replay-h%d-%s" % (h, "seam" if seam else "real"), h, args)
+        v["behaviours"] = len(behs) * len(hfs.split(","))
+        v["sim_states"] = r.generated
+        v["sample_behaviour"] = behs[0]
+        return v
+    with ThreadPoolExecutor(max_workers=4) as ex:
+        out = list(ex.map(one, SIM[tier]))
+    return out
